@@ -265,11 +265,16 @@ def main(argv=None):
     n_obl = n_dis = n_known = 0
     failed, unknown, errors, known_hits = [], [], [], {}
     solver_secs = 0.0
+    scoped = {c.name: c.clause_props for c in contracts if getattr(c, 'clause_props', None)}
     for r in cres:
         for e in r['errors']:
             errors.append(f'{r["name"]}: {e}')
         for o in r['obligations']:
             solver_secs += o['secs']
+            # a clause may belong to fewer properties than its contract (clause_props): it is not an obligation of the others
+            cp = scoped.get(r['name'], {}).get(o['name'].rsplit('.', 1)[-1])
+            if cp is not None and prop not in cp:
+                continue
             if o['status'] == 'known':
                 n_known += 1
                 known_hits.setdefault(o['known_id'], []).append(o['name'])
